@@ -413,7 +413,7 @@ def unit_q_policy(S):
                 if use_mask:
                     S.prove(f"{cfg}/exploration-samples-the-masked-law", ctx, sand(*[z3.Implies(z3.Not(m.at((j,))), lg.at((j,)) <= -ir.INF) for j in range(n)]), hyps=fin, function=fn,
                             what="the exploratory sample is drawn from logits that are -inf on masked actions (never chosen, A-DISTREQX)", nl_budget_ms=4000)
-                S.prove(f"{cfg}/keys-differ", ctx, us[0].operands[0].scalar() != cs[0].operands[-1].scalar(), hyps=[_split_distinct(ctx, kc)], function=fn, what="the uniform draw and the exploratory sample use different derived keys")
+                S.prove(f"{cfg}/keys-differ", ctx, us[0].operands[0].scalar() != cs[0].operands[-1].scalar(), hyps=[_split_distinct(ctx, kc)] + kit.rng_ground_injectivity([us[0].operands[0].scalar(), cs[0].operands[-1].scalar()]), function=fn, what="the uniform draw and the exploratory sample use different derived keys")
 
 
 def _split_distinct(ctx, kc):
